@@ -49,18 +49,18 @@ Qed.
 Section Hist.
 Variable tag : key -> N.
 Variable K : key.
-(* no key of a response collides with K's tag (the condition F4 violates) *)
-Definition nocoll (keys : list key) : Prop := forall k', In k' keys -> tag k' = tag K -> k' = K.
+(* K's key material is in a response (whatever the flags) *)
+Definition mat_mem (keys : list key) : bool := existsb (fun k => k_mat k =? k_mat K) keys.
 
 (* ---- what the run sees and does, per event *)
 Definition ev_keys (e : event) : list key :=
   match e with
   | ERun _ (FResp keys _) _ => keys
-  | ECrash _ (FResp keys _) _ _ _ => keys
+  | ECrash _ (FResp keys _) _ _ _ _ => keys
   | _ => []
   end.
 Definition ev_now (e : event) : option Z :=
-  match e with ERun now _ _ => Some now | ECrash now _ _ _ _ => Some now | ERestart _ => None end.
+  match e with ERun now _ _ => Some now | ECrash now _ _ _ _ _ => Some now | ERestart _ _ => None end.
 Definition full_at (s : sys) (now : Z) (fe : fetch) (fl : faults) : bool :=
   match fe with
   | FResp keys sigs =>
@@ -70,20 +70,20 @@ Definition full_at (s : sys) (now : Z) (fe : fetch) (fl : faults) : bool :=
 Definition ev_full (s : sys) (e : event) : bool :=
   match e with
   | ERun now fe fl => full_at s now fe fl
-  | ECrash now fe fl _ _ => full_at s now fe fl
-  | ERestart _ => false
+  | ECrash now fe fl _ _ _ => full_at s now fe fl
+  | ERestart _ _ => false
   end.
 Definition ev_recorded (s : sys) (e : event) : bool :=
   match e with
   | ERun now fe fl => has_wstate (r_writes (run_of tag s now fe fl))
-  | ECrash now fe fl k _ => has_wstate (firstn k (r_writes (run_of tag s now fe fl)))
-  | ERestart _ => false
+  | ECrash now fe fl k _ _ => has_wstate (firstn k (r_writes (run_of tag s now fe fl)))
+  | ERestart _ _ => false
   end.
 
 Record mon := mk_mon { m_streak : option Z; m_prom : bool; m_rec : bool }.
 
 Definition mon_step (s : sys) (e : event) (M : mon) : mon :=
-  let present := key_mem K (ev_keys e) in
+  let present := mat_mem (ev_keys e) in
   let now := match ev_now e with Some n => n | None => 0%Z end in
   mk_mon
     (if ev_full s e && ev_recorded s e
@@ -91,7 +91,7 @@ Definition mon_step (s : sys) (e : event) (M : mon) : mon :=
      else m_streak M)
     (m_prom M || (ev_full s e && present &&
                   match m_streak M with Some t0 => (now - t0 >? hold_add)%Z | None => false end))
-    (m_rec M || match e with ECrash _ _ _ _ c => key_mem K c | ERestart c => key_mem K c | ERun _ _ _ => false end).
+    (m_rec M || match e with ECrash _ _ _ _ c _ => key_mem K c | ERestart c _ => key_mem K c | ERun _ _ _ => false end).
 
 Fixpoint monitor (s : sys) (h : list event) (M : mon) : sys * mon :=
   match h with
@@ -163,17 +163,16 @@ Lemma prefetch_origin live cfg d now fl ksk2 tombs2 :
   forall t a, In (t, a) ksk2 -> pre_origin live cfg d fl now t a.
 Proof.
   unfold prefetch. intros Hp.
-  set (ksk0 := match (if f_sread fl then None else d_state d) with Some s => s | None => seed_from_live tag now live end) in *.
+  destruct (f_sread fl) eqn:Es; [discriminate|].
+  destruct (f_tread fl); [|discriminate|discriminate].
+  set (ksk0 := match d_state d with Some s => s | None => seed_from_live tag now live end) in *.
   assert (H0 : forall t a, In (t, a) ksk0 -> pre_origin live cfg d fl now t a).
-  { intros t a Hin. unfold ksk0 in Hin. destruct (f_sread fl) eqn:Es.
-    - apply seed_origin in Hin. destruct Hin as (k & H1 & H2 & H3 & H4). eapply PoLive; eassumption.
-    - destruct (d_state d) as [s|] eqn:Ed.
-      + apply PoDisk; [exact Es|]. unfold st_entries. rewrite Ed. exact Hin.
-      + apply seed_origin in Hin. destruct Hin as (k & H1 & H2 & H3 & H4). eapply PoLive; eassumption. }
-  destruct (f_tread fl); [|discriminate|].
-  all: inversion Hp as [Hp']; clear Hp; apply (f_equal fst) in Hp'; cbn [fst] in Hp'; subst ksk2.
-  all: apply merge_origin; [|intros k Hk; eapply PoCfg; [exact Hk|reflexivity|reflexivity]].
-  all: intros t' a' Hin'; apply H0; unfold precedence in Hin'; apply filter_In in Hin'; apply Hin'.
+  { intros t a Hin. unfold ksk0 in Hin. destruct (d_state d) as [s|] eqn:Ed.
+    - apply PoDisk; [exact Es|]. unfold st_entries. rewrite Ed. exact Hin.
+    - apply seed_origin in Hin. destruct Hin as (k & H1 & H2 & H3 & H4). eapply PoLive; eassumption. }
+  inversion Hp as [Hp']; clear Hp; apply (f_equal fst) in Hp'; cbn [fst] in Hp'; subst ksk2.
+  apply merge_origin; [|intros k Hk; eapply PoCfg; [exact Hk|reflexivity|reflexivity]].
+  intros t' a' Hin'; apply H0; unfold precedence in Hin'; apply filter_In in Hin'; apply Hin'.
 Qed.
 
 (* ---- the four ways a run can end *)
@@ -216,7 +215,7 @@ Proof.
     let fm := fetched_map tag keys in
     let tags := sort_tags (map fst fm) in
     let staged := stage tag ksk2 tombs2 sigs fm tags in
-    let s3 := process now ro fm staged tags (mk_pst ksk2 tombs2 false []) in
+    let s3 := process tag now ro fm staged tags (mk_pst ksk2 tombs2 false []) in
     let s4 := if ro then s3 else mk_pst (keyrem now fm (p_ksk s3)) (p_tombs s3) (p_newrev s3) (p_revs s3) in
     In (WState s5) (r_writes (tail (if is_nil live then live else trusted_keys ksk2) d fl s4)) -> t = tag (ta_key a)).
   { intros ro fm tags staged s3 s4 Hw'.
@@ -236,7 +235,7 @@ Qed.
 (* ---- the monitor after a run whose state file did (rc) or did not land *)
 Definition fe_keys (fe : fetch) : list key := match fe with FResp keys _ => keys | FErr => [] end.
 Definition mon_run (s : sys) (now : Z) (fe : fetch) (fl : faults) (rc recflag : bool) (M : mon) : mon :=
-  let present := key_mem K (fe_keys fe) in
+  let present := mat_mem (fe_keys fe) in
   mk_mon (if full_at s now fe fl && rc
           then (if present then Some (match m_streak M with Some t0 => t0 | None => now end) else None)
           else m_streak M)
@@ -252,7 +251,6 @@ Section Run.
 Variables (T : Z) (s : sys) (M : mon) (now : Z) (fe : fetch) (fl : faults).
 Hypothesis HInv : Inv T s M.
 Hypothesis HT : (T <= now)%Z.
-Hypothesis Hnc : nocoll (fe_keys fe).
 
 Lemma I1 : forall t a, In (t, a) (st_entries (s_disk s)) -> ta_key a = K -> ta_st a = SAddPend ->
                exists t0, m_streak M = Some t0 /\ (t0 <= ta_fs a)%Z.
@@ -293,11 +291,11 @@ Proof.
   - discriminate.
 Qed.
 
-Lemma present_by_tag keys t a : nocoll keys -> In (t, a) ksk2 -> ta_key a = K -> lookup t (fetched_map tag keys) <> None -> key_mem K keys = true.
+Lemma present_by_mat keys t a : ta_key a = K -> fm_has (fetched_map tag keys) t a = true -> mat_mem keys = true.
 Proof.
-  intros Hnk H Hk Hl. destruct (lookup t (fetched_map tag keys)) as [k'|] eqn:E; [|contradiction].
-  apply fetched_map_in in E. destruct E as (Hin & _ & Ht). apply pre_tags in H. rewrite Hk in H.
-  assert (k' = K) by (apply Hnk; [exact Hin|congruence]). subst k'. apply key_mem_in. exact Hin.
+  intros Hk Hl. unfold fm_has in Hl. destruct (lookup t (fetched_map tag keys)) as [k'|] eqn:E; [|discriminate].
+  apply fetched_map_in in E. destruct E as (Hin & _ & _). unfold mat_mem. apply existsb_exists.
+  exists k'. split; [exact Hin|]. unfold ta_mat in Hl. rewrite Hk in Hl. exact Hl.
 Qed.
 
 Lemma cand_is : candidate tag (s_live s) (s_cfg s) (s_disk s) now fl = trusted_keys ksk2.
@@ -320,7 +318,7 @@ Proof.
   assert (H6 : forall t0, m_streak M' = Some t0 -> (t0 <= now)%Z).
   { intros t0. unfold M', mon_run. cbn [m_streak].
     destruct (full_at s now fe fl && has_wstate ws).
-    - destruct (key_mem K (fe_keys fe)); [|discriminate]. destruct (m_streak M) as [t1|] eqn:E; intros H; inversion H; subst; [specialize (I6 _ E); lia|lia].
+    - destruct (mat_mem (fe_keys fe)); [|discriminate]. destruct (m_streak M) as [t1|] eqn:E; intros H; inversion H; subst; [specialize (I6 _ E); lia|lia].
     - intros H. specialize (I6 _ H). lia. }
   assert (Hmono : m_rec M = true \/ m_prom M = true -> m_rec M' = true \/ m_prom M' = true) by apply mon_mono.
   (* the unchanged-state-file case *)
@@ -363,10 +361,10 @@ Proof.
     pose proof (full_run_origin tag _ _ _ _ _ _ fl _ _ Hp Ha) as (L1 & L2).
     assert (Hfull : full_at s now (FResp keys sigs) fl = true) by (unfold full_at; rewrite (cand_is _ _ Hp), Ha; reflexivity).
     (* a pending entry of K that completes the hold-down sets prom *)
-    assert (Hprom : forall t a, In (t, a) ksk2 -> ta_st a = SAddPend -> ta_key a = K -> lookup t (fetched_map tag keys) <> None ->
+    assert (Hprom : forall t a, In (t, a) ksk2 -> ta_st a = SAddPend -> ta_key a = K -> fm_has (fetched_map tag keys) t a = true ->
                      (now - ta_fs a > hold_add)%Z -> m_prom M' = true).
     { intros t a Hi Hs Hk Hl Hage. destruct (pend_ok _ _ Hp t a Hi Hk Hs) as (t0 & Hst & Hle).
-      unfold M', mon_run. cbn [m_prom fe_keys]. rewrite Hfull, (present_by_tag _ _ Hp keys t a Hnc Hi Hk Hl), Hst. cbn.
+      unfold M', mon_run. cbn [m_prom fe_keys]. rewrite Hfull, (present_by_mat keys t a Hk Hl), Hst. cbn.
       destruct (Z.gtb_spec (now - t0) hold_add); [apply orb_true_r|lia]. }
     assert (Hlive : In K (autota tag (s_live s) (s_cfg s) (s_disk s) now (FResp keys sigs) fl).(r_live) -> m_rec M' = true \/ m_prom M' = true).
     { intros Hin. destruct (L1 K Hin) as [Hc|(t & a & Hi & Hs & Hk & Hl & Hage)].
@@ -379,9 +377,10 @@ Proof.
       repeat split; try assumption.
       * intros t a Hi Hk Hs. rewrite Hst5 in Hi. destruct (proj2 (L2 s5 t a Hin5 Hi) Hs) as [[Ho Hl]|[Hl Hfs]].
         -- destruct (pend_ok _ _ Hp t a Ho Hk Hs) as (t0 & Hst & Hle). exists t0. split; [|exact Hle].
-           unfold M', mon_run. cbn [m_streak fe_keys]. rewrite Hfull, Hw, (present_by_tag _ _ Hp keys t a Hnc Ho Hk Hl), Hst. reflexivity.
-        -- assert (Hpres : key_mem K keys = true).
-           { apply key_mem_in. apply fetched_map_in in Hl. rewrite <- Hk. apply Hl. }
+           unfold M', mon_run. cbn [m_streak fe_keys]. rewrite Hfull, Hw, (present_by_mat keys t a Hk Hl), Hst. reflexivity.
+        -- assert (Hpres : mat_mem keys = true).
+           { unfold mat_mem. apply existsb_exists. exists K. split; [|apply N.eqb_refl].
+             apply fetched_map_in in Hl. rewrite <- Hk. apply Hl. }
            unfold M', mon_run. cbn [m_streak fe_keys]. rewrite Hfull, Hw, Hpres. cbn.
            destruct (m_streak M) as [t1|] eqn:E; eexists; (split; [reflexivity|]); [specialize (I6 _ E); lia|lia].
       * intros t a Hi Hk Ht. rewrite Hst5 in Hi. destruct (proj1 (L2 s5 t a Hin5 Hi) Ht) as [(a0 & Ho & Ht0 & Hk0)|(a0 & Ho & Hs0 & Hk0 & Hl & Hage)].
@@ -397,53 +396,46 @@ Lemma mon_step_run s now fe fl M :
   mon_step s (ERun now fe fl) M = mon_run s now fe fl (has_wstate (r_writes (run_of tag s now fe fl))) false M.
 Proof. unfold mon_step, mon_run. destruct fe; reflexivity. Qed.
 
-Lemma mon_step_crash s now fe fl k c M :
-  mon_step s (ECrash now fe fl k c) M = mon_run s now fe fl (has_wstate (firstn k (r_writes (run_of tag s now fe fl)))) (key_mem K c) M.
+Lemma mon_step_crash s now fe fl k c tr M :
+  mon_step s (ECrash now fe fl k c tr) M = mon_run s now fe fl (has_wstate (firstn k (r_writes (run_of tag s now fe fl)))) (key_mem K c) M.
 Proof. unfold mon_step, mon_run. destruct fe; reflexivity. Qed.
 
-Lemma ev_keys_fe now fe fl : ev_keys (ERun now fe fl) = fe_keys fe.
-Proof. destruct fe; reflexivity. Qed.
-Lemma ev_keys_fe_crash now fe fl k c : ev_keys (ECrash now fe fl k c) = fe_keys fe.
-Proof. destruct fe; reflexivity. Qed.
-
 Lemma step_inv T s M e :
-  nocoll (ev_keys e) ->
   Inv T s M -> match ev_now e with Some n => (T <= n)%Z | None => True end ->
   Inv (match ev_now e with Some n => n | None => T end) (step tag s e) (mon_step s e M).
 Proof.
-  intros Hnc HI HT. destruct e as [now fe fl|now fe fl k c|c]; cbn [ev_now] in *.
-  - rewrite mon_step_run. rewrite ev_keys_fe in Hnc.
-    pose proof (run_preserves T s M now fe fl HI HT Hnc (length (r_writes (run_of tag s now fe fl))) false) as H.
+  intros HI HT. destruct e as [now fe fl|now fe fl k c tr|c tr]; cbn [ev_now] in *.
+  - rewrite mon_step_run.
+    pose proof (run_preserves T s M now fe fl HI HT (length (r_writes (run_of tag s now fe fl))) false) as H.
     cbn zeta in H. rewrite firstn_all in H. destruct H as (A & B & C & D & E).
     cbn [step]. unfold Inv. cbn [s_live s_cfg s_disk]. unfold run_of in *. rewrite r_disk_writes.
     repeat split; try assumption.
     intros Hc. cbn. rewrite (I5 T s M HI Hc). reflexivity.
-  - rewrite mon_step_crash. rewrite ev_keys_fe_crash in Hnc.
-    pose proof (run_preserves T s M now fe fl HI HT Hnc k (key_mem K c)) as H.
+  - rewrite mon_step_crash.
+    pose proof (run_preserves T s M now fe fl HI HT k (key_mem K c)) as H.
     cbn zeta in H. destruct H as (A & B & _ & D & E).
     cbn [step]. unfold Inv. cbn [s_live s_cfg s_disk].
     repeat split; try assumption.
-    + intros Hc. left. cbn. apply key_mem_in in Hc. rewrite Hc. apply orb_true_r.
+    + intros Hc. apply restart_live_sub in Hc. left. cbn. apply key_mem_in in Hc. rewrite Hc. apply orb_true_r.
     + intros Hc. cbn. apply key_mem_in in Hc. rewrite Hc. apply orb_true_r.
   - destruct HI as (A & B & C & D & E & F). cbn [step]. unfold Inv, mon_step. cbn.
     repeat split.
     + exact A.
     + intros t a Hi Hk Ht. destruct (B t a Hi Hk Ht) as [H|H]; rewrite H; [left; reflexivity|right; reflexivity].
-    + intros Hc. left. apply key_mem_in in Hc. rewrite Hc. apply orb_true_r.
+    + intros Hc. apply restart_live_sub in Hc. left. apply key_mem_in in Hc. rewrite Hc. apply orb_true_r.
     + exact D.
     + intros Hc. apply key_mem_in in Hc. rewrite Hc. apply orb_true_r.
     + exact F.
 Qed.
 
-Lemma monitor_inv h : forall T s M, Forall (fun e => nocoll (ev_keys e)) h ->
-  Inv T s M -> mono T h -> exists T', Inv T' (fst (monitor s h M)) (snd (monitor s h M)).
+Lemma monitor_inv h : forall T s M, Inv T s M -> mono T h -> exists T', Inv T' (fst (monitor s h M)) (snd (monitor s h M)).
 Proof.
-  induction h as [|e h IH]; intros T s M Hnc HI Hm; [exists T; exact HI|].
-  cbn [monitor]. cbn [mono] in Hm. inversion Hnc as [|? ? Hnc1 Hnc2]; subst.
+  induction h as [|e h IH]; intros T s M HI Hm; [exists T; exact HI|].
+  cbn [monitor]. cbn [mono] in Hm.
   destruct (ev_now e) as [n|] eqn:En.
-  - destruct Hm as [Hle Hm]. eapply IH; [exact Hnc2| |exact Hm].
-    pose proof (step_inv T s M e Hnc1 HI) as H. rewrite En in H. apply H. exact Hle.
-  - eapply IH; [exact Hnc2| |exact Hm]. pose proof (step_inv T s M e Hnc1 HI) as H. rewrite En in H. apply H. exact I.
+  - destruct Hm as [Hle Hm]. eapply IH; [|exact Hm].
+    pose proof (step_inv T s M e HI) as H. rewrite En in H. apply H. exact Hle.
+  - eapply IH; [|exact Hm]. pose proof (step_inv T s M e HI) as H. rewrite En in H. apply H. exact I.
 Qed.
 
 Lemma monitor_exec h : forall s M, fst (monitor s h M) = exec tag s h.
@@ -451,51 +443,22 @@ Proof. induction h as [|e h IH]; intros s M; [reflexivity|]. cbn. apply IH. Qed.
 
 End Hist.
 
-(* new_key_needs_30d (partial: no published key collides with K's tag) *)
-Lemma new_key_needs_30d_partial_lemma :
-  forall (tag : key -> N) (K : key) (cfg : list key) (tombs : option tmap) (T0 : Z) (h : list event),
-    Forall (fun e => nocoll tag K (ev_keys e)) h ->
+(* new_key_needs_30d *)
+Lemma new_key_needs_30d_lemma :
+  forall (tag : key -> N) (K : key) (cfg : list key) (tombs : option tmap) (tr0 : tread) (T0 : Z) (h : list event),
     mono T0 h ->
-    let s0 := mk_sys cfg cfg (mk_disk None tombs) in               (* fresh start: no state file *)
+    let d0 := mk_disk None tombs in                                (* fresh start: no state file *)
+    let s0 := mk_sys (restart_live cfg d0 tr0) cfg d0 in
     let M0 := mk_mon None false (key_mem K cfg) in
     let M := snd (monitor tag K s0 h M0) in
     In K (s_live (exec tag s0 h)) -> m_rec M = true \/ m_prom M = true.
 Proof.
-  intros tag K cfg tombs T0 h Hnc Hm s0 M0 M Hin.
+  intros tag K cfg tombs tr0 T0 h Hm d0 s0 M0 M Hin.
   assert (H0 : Inv tag K T0 s0 M0).
   { unfold Inv, s0, M0, st_entries. cbn. repeat split; try (intros ? ? []).
-    - intros Hc. left. apply key_mem_in. exact Hc.
+    - intros Hc. apply restart_live_sub in Hc. left. apply key_mem_in. exact Hc.
     - intros Hc. apply key_mem_in. exact Hc.
     - discriminate. }
-  destruct (monitor_inv tag K h T0 s0 M0 Hnc H0 Hm) as (T' & HI).
+  destruct (monitor_inv tag K h T0 s0 M0 H0 Hm) as (T' & HI).
   rewrite monitor_exec in HI. destruct HI as (_ & _ & C & _). apply C. exact Hin.
 Qed.
-
-(* the hypotheses are satisfiable by a non-trivial history, and the monitor's verdict is not vacuous:
-   B is published next to A for 31 days, becomes trusted, and the monitor says "promoted" *)
-From Sdns Require Import C09.Proofs_Refute.
-Definition good_history : list event :=
-  [ ERun 0 (FResp [kA] [sg tag_inj kA]) no_faults;
-    ERun 0 (fetch_with tag_inj kB) no_faults;
-    ERun (10 * day) (fetch_with tag_inj kB) (mk_faults false TROk false true);   (* state write fails: not recorded *)
-    ECrash (20 * day) (fetch_with tag_inj kB) no_faults 1 [kA];                 (* dies before the state file lands *)
-    ERun (31 * day) (fetch_with tag_inj kB) no_faults ].
-Example new_key_30d_example :
-  Forall (fun e => nocoll tag_inj kB (ev_keys e)) good_history /\ mono 0 good_history /\
-  let s0 := mk_sys [kA] [kA] empty_disk in
-  In kB (s_live (exec tag_inj s0 good_history)) /\
-  snd (monitor tag_inj kB s0 good_history (mk_mon None false false)) = mk_mon (Some 0%Z) true false.
-Proof.
-  split; [|split; [|split]].
-  - unfold good_history. repeat constructor; intros k' Hin; cbn in Hin;
-      repeat (destruct Hin as [<-|Hin]; [vm_compute; intros H; try reflexivity; discriminate|]); destruct Hin.
-  - vm_compute. repeat split; discriminate.
-  - vm_compute. auto.
-  - vm_compute. reflexivity.
-Qed.
-(* and under the colliding tag function the monitor refuses what the model does (F4) *)
-Example new_key_30d_collision_example :
-  let s0 := mk_sys [kA] [kA] empty_disk in
-  In kB (s_live (exec tag_coll s0 coll_history)) /\
-  snd (monitor tag_coll kB s0 coll_history (mk_mon None false false)) = mk_mon None false false.
-Proof. vm_compute. auto. Qed.
